@@ -376,3 +376,9 @@ def run(ctx, configs=None):
                     ctx.ob("C01.framing-constants", ok, "fragment append: %s.extend(%s) (need accumulated.extend(new fragment))" % (term_str(recv)[:60], term_str(data)[:60]), fn=b.path,
                            construct="append-order", where=b.where(bb))
         ctx.floor("C01.framing-constants", "fragment appends (%s)" % cfg, n_ext, 2)
+        # the running sequence id of the fold: replaced by each fragment's id, and compared with the previous one + 1
+        nchain = 0
+        for okc, what, b_, blk_ in readloop.fragment_id_chain(prog, pk):
+            nchain += 1
+            ctx.ob("C01.framing-constants", okc, what, fn=b_.path, construct="fragment-id-chain", where=b_.where(blk_))
+        ctx.floor("C01.framing-constants", "fragment id chain obligations (%s)" % cfg, nchain, 2)
